@@ -48,7 +48,8 @@ def run(ctx):
         os.makedirs(root)
         days = ["2024-01-0%d" % i for i in range(1, 6)]
         invs = []
-        for _ in range(rng.choice([0, 1, 2, 3, 4, 6, 9, 14])):
+        forced = t % 20 if t % 20 < 4 else None    # retention 0 in its four settings, every 20 runs
+        for _ in range(rng.choice([0, 1, 2, 3, 4, 6, 9, 14]) if forced is None else rng.choice([1, 3, 6])):
             nm = "%s.%d" % (rng.choice(days), rng.randint(1, 4))
             if nm in invs:
                 continue
@@ -90,6 +91,11 @@ def run(ctx):
         keep_conf = rng.choice([0, 0, 1, 2, 3, 5])
         count_arg = rng.choice([None, None, 0, 1, 2, 3, 4, 20])
         running = rng.choice(invs) if invs and rng.random() < 0.55 else None
+        if forced is not None:
+            # retention 0 removes nothing: from the configuration / the command line, with nothing running,
+            # something running, a stale lock
+            keep_conf, count_arg = [(0, None), (0, 0), (0, None), (3, 0)][forced]
+            running = rng.choice(invs) if invs and forced == 2 else None
         conf = os.path.join(root, "canvas.conf")
         # the root as the configuration spells it, also with trailing slashes; the lock file holds
         # ${ROBSDDIR}/<id> with ROBSDDIR exactly as configured
@@ -100,7 +106,7 @@ def run(ctx):
         if running:
             open(os.path.join(root, ".running"), "w").write(spell + "/" + running + "\n")
             lockkind = "running"
-        elif rng.random() < 0.3:
+        elif rng.random() < 0.3 or forced == 1:
             # a lock file that names nothing: empty (a crash between truncate and write), or stale
             lockkind = rng.choice(["empty", "stale"])
             open(os.path.join(root, ".running"), "w").write("" if lockkind == "empty" else os.path.join(root, "2019-01-01.1") + "\n")
